@@ -413,6 +413,17 @@ func (obj *Package) Remove(name string) (removed bool) {
 				delete(u.vars, name)
 			}
 		}
+		// An exported variable of a used package, shadowed until now or the
+		// very entry just removed, remains visible.
+		for _, p := range obj.Uses {
+			p.mu.Lock()
+			vv := p.vars[name]
+			p.mu.Unlock()
+			if vv != nil && vv.Export && vv.Pkg == p {
+				obj.vars[name] = vv
+				break
+			}
+		}
 	}
 	delete(obj.classes, name)
 	obj.mu.Unlock()
@@ -544,6 +555,7 @@ func (obj *Package) Export(name string) {
 		} else {
 			vv := newUnboundVar(name)
 			vv.Export = true
+			vv.Pkg = obj
 			obj.vars[name] = vv
 		}
 	}
